@@ -111,8 +111,12 @@ class State:
         self.ghost: dict = {}
         self.nref = None             # allocation pointer (z3 Int term)
         self.nref0 = None
+        # feasibility of branches: E-matching only (explicit triggers), so that quantified contract clauses prune
+        # infeasible branches; `unknown` counts as feasible (sound: an infeasible path only adds trivial obligations)
         self.feas = z3.Solver()
-        self.feas.set("timeout", 2000)
+        self.feas.set("auto_config", False)
+        self.feas.set("mbqi", False)
+        self.feas.set("timeout", int(__import__("os").environ.get("PYVC_FEAS_TIMEOUT_MS", "1500")))
         self.trace: list = []        # human-readable branch trace
         self.cur_exc = None
         self.notes: list = []
